@@ -168,3 +168,20 @@ theorem QI_ops : CoreOps (fun k => QI k none) where
     · exact QS.refl _ _
 
 end M.Hosts
+
+namespace M.Hosts
+open M.Rt M.Bridge
+
+theorem SOk_ops : CoreOps (fun k => SOk k.w) where
+  pe := fun ev k es k' h hk => (processEvent_keeps ev k es k' h hk).1
+  pr := fun k es k' h hk => (process_keeps k es k' h hk).1
+  res := fun k r v hk => (resolveReq_keeps r v k.w hk).1
+  ds := fun k l hk => (Keeps.of_step hk (ns_dropSender k.w l) (SOkN.dropSender hk l)).1
+  ab := fun k n hk => (doAbort_keeps n k.w hk).1
+
+/-- freshness of waker serials behind the Bridge -/
+theorem runBridge_fresh (prog : Prog) (canon : Bool) (acts : List Action) (os : List Obs) (h : BridgeHost)
+    (hr : runBridge prog canon acts = some (os, h)) : SOk h.b.core.w :=
+  runBridge_inv SOk_ops prog SOk_empty canon acts os h hr
+
+end M.Hosts
